@@ -21,6 +21,13 @@ func init() {
 		c.Serial("replay", func(w *rt.W) { c03Case(w, rt.ArgString(v, "text"), true) })
 		return c.Report()
 	}
+	replayers["C03/format"] = func(v rt.Violation) string {
+		c := rt.ReplayCtx("C03")
+		c.Serial("replay", func(w *rt.W) {
+			c03FormatCase(w, sem.Ver{Major: rt.ArgUint(v, "major"), Minor: rt.ArgUint(v, "minor"), Patch: rt.ArgUint(v, "patch"), PreRelease: rt.ArgString(v, "pre"), Build: rt.ArgString(v, "build")})
+		})
+		return c.Report()
+	}
 	replayers["C03/valid-roundtrip"] = func(v rt.Violation) string {
 		c := rt.ReplayCtx("C03")
 		c.Serial("replay", func(w *rt.W) {
@@ -206,6 +213,25 @@ func c03Case(w *rt.W, s string, full bool) bool {
 		}
 	}
 	return fits
+}
+
+// c03FormatCase checks the rendering of a version with grammatical identifiers against plain decimal components.
+func c03FormatCase(w *rt.W, v sem.Ver) {
+	text := fmt.Sprintf("%d.%d.%d", v.Major, v.Minor, v.Patch)
+	if v.PreRelease != "" {
+		text += "-" + v.PreRelease
+	}
+	if v.Build != "" {
+		text += "+" + v.Build
+	}
+	args := rt.Args("major", fmt.Sprint(v.Major), "minor", fmt.Sprint(v.Minor), "patch", fmt.Sprint(v.Patch), "pre", v.PreRelease, "build", v.Build)
+	w.Eval(2)
+	if got := v.String(); got != text {
+		w.Fail("format-component", "format", args, got, text, "String() of a version must spell every numeric component in plain decimal")
+	}
+	if got, err := sem.DefaultFormatter([]byte("v"), v, sem.FormatTag); err != nil || string(got) != "vv"+text {
+		w.Fail("format-component", "format", args, string(got), "vv"+text, "DefaultFormatter(\"v\", FormatTag) must append v and the plain decimal components")
+	}
 }
 
 // c03ValidCase checks "Valid() == nil exactly when the formatted text parses back to an equal value".
@@ -478,6 +504,63 @@ func runC03(c *rt.Ctx) {
 			}
 		}
 	})
+	// components at every power of ten and of two and their neighbours (digit-count arithmetic goes wrong there,
+	// with floating-point digit counts within the float64 rounding distance below 10^16..10^19)
+	c.Parallel("decimal-boundary-components", 0, func(w *rt.W) {
+		var ns []uint64
+		p10 := uint64(1)
+		for k := 0; k <= 19; k++ {
+			for _, d := range []uint64{0, 1, 2, 3, 5, 8, 16, 63, 64, 65, 500, 1000, 1025, 2048} {
+				if p10 > d {
+					ns = append(ns, p10-d)
+				}
+				if p10+d > p10 || d == 0 {
+					ns = append(ns, p10+d)
+				}
+			}
+			ns = append(ns, p10*5, p10*9, p10*2-1)
+			if k < 19 {
+				p10 *= 10
+			}
+		}
+		for k := uint(1); k < 64; k++ {
+			ns = append(ns, uint64(1)<<k-1, uint64(1)<<k, uint64(1)<<k+1)
+		}
+		ns = append(ns, ^uint64(0), ^uint64(0)-1)
+		for i := w.Shard; i < len(ns); i += w.NShards {
+			n := ns[i]
+			for pos := 0; pos < 3; pos++ {
+				v := sem.Ver{Major: 1, Minor: 2, Patch: 3}
+				parts := []string{"1", "2", "3"}
+				parts[pos] = fmt.Sprint(n)
+				switch pos {
+				case 0:
+					v.Major = n
+				case 1:
+					v.Minor = n
+				default:
+					v.Patch = n
+				}
+				for _, suf := range [][2]string{{"", ""}, {"rc.1", ""}, {"", "b7"}, {"a", "b"}} {
+					v.PreRelease, v.Build = suf[0], suf[1]
+					text := strings.Join(parts, ".")
+					if suf[0] != "" {
+						text += "-" + suf[0]
+					}
+					if suf[1] != "" {
+						text += "+" + suf[1]
+					}
+					c03FormatCase(w, v)
+					c03Case(w, text, true)
+					c03Case(w, "v"+text, true)
+					c03ValidCase(w, v)
+				}
+			}
+			w.ClassN("decimal-boundary-component", 1)
+			w.NT(1)
+		}
+	})
+	c.Require("decimal-boundary-component", 700)
 	c.Require("boundary-2^64-component", 500)
 
 	nMut := c.Pick(60, 200)
